@@ -140,8 +140,8 @@ pub fn junk_ack_bytes() -> BoxedStrategy<Vec<u8>> {
 pub fn cfg_strategy(p: Profile, thorough: bool) -> BoxedStrategy<Cfg> {
     // a second relationship type in half of the configurations that have hierarchies
     let offset = prop_oneof![6 => Just(0u16), 3 => 40u16..70, 1 => 8170u16..8200];
-    let inner = (cfg_strategy_inner(p, thorough), any::<bool>(), offset)
-        .prop_map(move |(c, o, entity_offset)| Cfg { owners: (o || matches!(p, Profile::Related)) && c.children, entity_offset, ..c })
+    let inner = (cfg_strategy_inner(p, thorough), any::<bool>(), offset, proptest::bool::weighted(0.3))
+        .prop_map(move |(c, o, entity_offset, markers)| Cfg { owners: (o || matches!(p, Profile::Related)) && c.children, entity_offset, markers, ..c })
         .boxed();
     if matches!(p, Profile::Events | Profile::Events3 | Profile::Sessions | Profile::Auth | Profile::Lossy | Profile::Split | Profile::Tracked) {
         (inner, varint_edge_start()).prop_map(|(c, st)| if c.policy == 0 { Cfg { start_tick: st, ..c } } else { c }).boxed()
@@ -222,6 +222,8 @@ fn cfg_strategy_inner(p: Profile, thorough: bool) -> BoxedStrategy<Cfg> {
                 c.events = true;
                 c.clients = c.clients.max(2);
                 c.faults = b1;
+                // hierarchies: a recursive despawn ends several entities that events may still refer to
+                c.children = b2;
                 (prop_oneof![2 => Just(0u8), 2 => Just(1u8)], prop_oneof![3 => Just(0u8), 1 => Just(1u8), 1 => Just(2u8)])
                     .prop_map(move |(a, v)| Cfg { auth: a, vis: v, ..c.clone() })
                     .boxed()
@@ -229,6 +231,9 @@ fn cfg_strategy_inner(p: Profile, thorough: bool) -> BoxedStrategy<Cfg> {
             Profile::Auth => {
                 c.events = true;
                 c.faults = b1;
+                // relationship groups that exist before a client is authorized
+                c.children = b2;
+                c.sync = b2 && b3;
                 (prop_oneof![1 => Just(0u8), 3 => Just(1u8), 3 => Just(2u8)], 0u8..8, vis)
                     .prop_map(move |(a, m, v)| Cfg { auth: a, mismatch: if a != 0 { m & 0b101 } else { 0 }, vis: v, ..c.clone() })
                     .boxed()
@@ -284,6 +289,7 @@ fn cfg_strategy_inner(p: Profile, thorough: bool) -> BoxedStrategy<Cfg> {
                 c.events = true;
                 c.clients = 3;
                 c.policy = 0;
+                c.children = b3;
                 c.connect_all = b1 || b2;
                 prop_oneof![1 => Just(0u8), 2 => Just(2u8), 1 => Just(1u8)].prop_map(move |v| Cfg { vis: v, ..c.clone() }).boxed()
             }
